@@ -211,8 +211,16 @@ Fixpoint re_of (t : re_tab) (p v : str) : bool :=
   end.
 
 Inductive case :=
+(* DeletionModifier.Modify on in-memory chunk series *)
 | CDel (reqs : list request) (rt : re_tab) (ss : list series)
-       (out : list (labels * list ochunk)) (failed : bool).
+       (out : list (labels * list ochunk)) (failed : bool)
+(* Compactor.WriteSeries with the deletion modifier from a real block into a new
+   block, read back from disk: series left without chunks are not written *)
+| CBlock (reqs : list request) (rt : re_tab) (ss : list series)
+         (out : list (labels * list ochunk)) (failed : bool).
+
+Definition has_chunks (o : labels * list ochunk) : bool :=
+  match snd o with [] => false | _ => true end.
 
 Definition label_eqb (a b : label) : bool := str_eqb (fst a) (fst b) && str_eqb (snd a) (snd b).
 Definition labels_eqb : labels -> labels -> bool := list_eqb label_eqb.
@@ -226,6 +234,8 @@ Definition corr_ok (c : case) : bool :=
   match c with
   | CDel reqs rt ss out failed =>
       negb failed && list_eqb oseries_eqb (rewrite (re_of rt) reqs ss) out
+  | CBlock reqs rt ss out failed =>
+      negb failed && list_eqb oseries_eqb (filter has_chunks (rewrite (re_of rt) reqs ss)) out
   end.
 
 (* ---- the property's predicate on the implementation's own observables ---- *)
@@ -255,7 +265,30 @@ Fixpoint exact (re : str -> str -> bool) (reqs : list request) (ss : list series
       end
   end.
 
+(* the same for a block read back from disk: a series is present iff samples remain *)
+Fixpoint exact_block (re : str -> str -> bool) (reqs : list request) (ss : list series)
+         (out : list (labels * list ochunk)) : bool :=
+  match ss with
+  | [] => match out with [] => true | _ => false end
+  | s :: ss' =>
+    if whole_deleted re reqs (fst s) then exact_block re reqs ss' out
+    else
+      match spec_samples re reqs s with
+      | [] => exact_block re reqs ss' out
+      | _ =>
+        match out with
+        | [] => false
+        | o :: out' =>
+          labels_eqb (fst s) (fst o)
+          && list_eqb sample_eqb (concat (map snd (snd o))) (spec_samples re reqs s)
+          && forallb ochunk_wf (snd o)
+          && exact_block re reqs ss' out'
+        end
+      end
+  end.
+
 Definition pred_ok (c : case) : bool :=
   match c with
   | CDel reqs rt ss out failed => negb failed && exact (re_of rt) reqs ss out
+  | CBlock reqs rt ss out failed => negb failed && exact_block (re_of rt) reqs ss out
   end.
